@@ -89,12 +89,15 @@ def check_account_proof(proof: bytes, shrd_blk: BlockIdExt, address: "Address", 
     if len(proof_cells) != 2:
         raise ProofError('expected 2 root cells in account state proof')
 
-    state_cell = proof_cells[1]
+    block_proof_cell, state_cell = proof_cells
 
-    state_hash = check_block_header_proof(proof_cells[0][0], shrd_blk.root_hash, True)
+    # both roots must be Merkle proof cells: of the block, and of the state that block commits to
+    check_proof(block_proof_cell, shrd_blk.root_hash)
+    state_hash = check_block_header_proof(block_proof_cell[0], shrd_blk.root_hash, True)
 
-    if state_cell[0].get_hash(0) != state_hash:
+    if state_cell.type_ != CellTypes.merkle_proof or state_cell[0].get_hash(0) != state_hash:
         raise ProofError('state hashes mismatch')
+    check_proof(state_cell, state_hash)
 
     shard = ShardStateUnsplit.deserialize(state_cell[0].begin_parse())
 
